@@ -108,7 +108,7 @@ func checkValue(t *core.T, v Val) {
 		sig = c
 	}
 	var back types.Value
-	if t.Protect("value-unmarshal:"+sig, string(js), func() { err = types.UnmarshalJSON(js, &back) }) {
+	if t.Protect("value-unmarshal:"+sig, string(js), func() { err = core.Scribbled(js, func(b []byte) error { return types.UnmarshalJSON(b, &back) }) }) {
 		return
 	}
 	if err != nil {
@@ -294,7 +294,7 @@ func entityFamily() *core.Family {
 				return
 			}
 			var back types.Entity
-			if err := json.Unmarshal(js, &back); err != nil {
+			if err := core.Scribbled(js, func(b []byte) error { return json.Unmarshal(b, &back) }); err != nil {
 				t.Fail("entity-json-does-not-decode", string(js), "decodes", err.Error())
 				return
 			}
